@@ -596,7 +596,13 @@ class HierarchyElement(DiagLayer):
         # determine the set of applicable communication parameters
         cps = [cp for cp in self.comparam_refs if cp.short_name == cp_short_name]
         if protocol_name is not None:
-            cps = [cp for cp in cps if cp.protocol_snref in (None, protocol_name)]
+            # prefer the definition for the specified protocol and
+            # use the protocol agnostic definition as fallback
+            specific_cps = [cp for cp in cps if cp.protocol_snref == protocol_name]
+            if specific_cps:
+                cps = specific_cps
+            else:
+                cps = [cp for cp in cps if cp.protocol_snref is None]
 
         if len(cps) > 1:
             warnings.warn(
